@@ -27,6 +27,20 @@ logger = logging.getLogger('pyx12.error_999')
 logger.setLevel(logging.DEBUG)
 
 
+def _echo(val, width=None):
+    """
+    Source data copied into the acknowledgement must not contain the
+    delimiters the acknowledgement is written with (it would add or split
+    elements and segments).  X12 has no escape mechanism, so they are removed.
+    """
+    if val is None:
+        return val
+    out = ''.join([c for c in val if c not in '~*:^\r\n'])
+    if width is not None:
+        out = out.ljust(width)
+    return out
+
+
 class error_999_visitor(pyx12.error_visitor.error_visitor):
     """
     Visit an error_handler composite.  Generate a 999.
@@ -68,17 +82,17 @@ class error_999_visitor(pyx12.error_visitor.error_visitor):
         icvn = seg.get_value('ISA12')
         isa_seg = pyx12.segment.Segment('ISA*00*          *00*          ',
                                         self.seg_term, self.ele_term, self.subele_term)
-        isa_seg.set('05', seg.get_value('ISA07'))
-        isa_seg.set('06', seg.get_value('ISA08'))
-        isa_seg.set('07', seg.get_value('ISA05'))
-        isa_seg.set('08', seg.get_value('ISA06'))
+        isa_seg.set('05', _echo(seg.get_value('ISA07'), 2))
+        isa_seg.set('06', _echo(seg.get_value('ISA08'), 15))
+        isa_seg.set('07', _echo(seg.get_value('ISA05'), 2))
+        isa_seg.set('08', _echo(seg.get_value('ISA06'), 15))
         isa_seg.set('09', time.strftime('%y%m%d'))  # Date
         isa_seg.set('10', time.strftime('%H%M'))  # Time
         isa_seg.set('11', self.repetition_term)
         isa_seg.set('12', icvn)
         isa_seg.set('13', self.isa_control_num)  # ISA Interchange Control Number
         isa_seg.set('14', '0') # No need for TA1 response to 999
-        isa_seg.set('15', seg.get_value('ISA15'))
+        isa_seg.set('15', _echo(seg.get_value('ISA15'), 1))
         isa_seg.set('16', self.subele_term)
         self.wr.Write(isa_seg)
 
@@ -86,12 +100,12 @@ class error_999_visitor(pyx12.error_visitor.error_visitor):
         seg = errh.cur_gs_node.seg_data
         gs_seg = pyx12.segment.Segment('GS', '~', '*', ':')
         gs_seg.set('01', 'FA')
-        gs_seg.set('02', seg.get_value('GS03').rstrip())
-        gs_seg.set('03', seg.get_value('GS02').rstrip())
+        gs_seg.set('02', _echo(seg.get_value('GS03')).rstrip())
+        gs_seg.set('03', _echo(seg.get_value('GS02')).rstrip())
         gs_seg.set('04', time.strftime('%Y%m%d'))
         gs_seg.set('05', time.strftime('%H%M%S'))
         gs_seg.set('06', self.gs_control_num)
-        gs_seg.set('07', seg.get_value('GS07'))
+        gs_seg.set('07', _echo(seg.get_value('GS07')))
         gs_seg.set('08', self.vriic)
         self.wr.Write(gs_seg)
 
@@ -132,9 +146,9 @@ class error_999_visitor(pyx12.error_visitor.error_visitor):
             #seg = ['TA1', err_isa.isa_trn_set_id, err_isa.orig_date, \
             #    err_isa.orig_time]
             ta1_seg = pyx12.segment.Segment('TA1', '~', '*', ':')
-            ta1_seg.append(err_isa.isa_trn_set_id)
-            ta1_seg.append(err_isa.orig_date)
-            ta1_seg.append(err_isa.orig_time)
+            ta1_seg.append(_echo(err_isa.isa_trn_set_id))
+            ta1_seg.append(_echo(err_isa.orig_date))
+            ta1_seg.append(_echo(err_isa.orig_time))
             err_codes = self.__get_isa_errors(err_isa)
             if err_codes:
                 err_cde = err_codes[0]
@@ -171,9 +185,9 @@ class error_999_visitor(pyx12.error_visitor.error_visitor):
         st_seg.set('03', self.vriic)
         self.wr.Write(st_seg)
         ak1 = pyx12.segment.Segment('AK1', '~', '*', ':')
-        ak1.set('01', err_gs.fic)
-        ak1.set('02', err_gs.gs_control_num)
-        ak1.set('03', err_gs.vriic)
+        ak1.set('01', _echo(err_gs.fic))
+        ak1.set('02', _echo(err_gs.gs_control_num))
+        ak1.set('03', _echo(err_gs.vriic))
         self.wr.Write(ak1)
 
     def __get_gs_errors(self, err_gs):
@@ -244,11 +258,11 @@ class error_999_visitor(pyx12.error_visitor.error_visitor):
         if err_st.trn_set_control_num is None:
             raise EngineError('Cannot create AK2: err_st.trn_set_control_num was not set')
         seg_data = pyx12.segment.Segment('AK2', '~', '*', ':')
-        seg_data.set('01', err_st.trn_set_id)
-        seg_data.set('02', err_st.trn_set_control_num.strip())
+        seg_data.set('01', _echo(err_st.trn_set_id))
+        seg_data.set('02', _echo(err_st.trn_set_control_num).strip())
         if err_st.vriic:
             # AK203 is situational: echoed only when the source ST carried an ST03
-            seg_data.set('03', err_st.vriic)
+            seg_data.set('03', _echo(err_st.vriic))
         self.wr.Write(seg_data)
 
     def __get_st_errors(self, err_st):
@@ -295,10 +309,10 @@ class error_999_visitor(pyx12.error_visitor.error_visitor):
         """
         valid_IK3_codes = ('1', '2', '3', '4', '5', '6', '7', '8', 'I4', 'I6', 'I7', 'I8', 'I9')
         seg_base = pyx12.segment.Segment('IK3', '~', '*', ':')
-        seg_base.set('01', err_seg.seg_id)
+        seg_base.set('01', _echo(err_seg.seg_id))
         seg_base.set('02', '%i' % err_seg.seg_count)
         if err_seg.ls_id:
-            seg_base.set('03', err_seg.ls_id)
+            seg_base.set('03', _echo(err_seg.ls_id))
         #else:
         #    seg_base.set('')
         seg_str = seg_base.format('~', '*', ':')
@@ -339,7 +353,7 @@ class error_999_visitor(pyx12.error_visitor.error_visitor):
             if err_cde in valid_IK4_codes:
                 seg_data = pyx12.segment.Segment(seg_str, '~', '*', ':')
                 seg_data.set('IK403', err_cde)
-                if bad_value:
-                    seg_data.set('IK404', bad_value)
+                if bad_value and _echo(bad_value):
+                    seg_data.set('IK404', _echo(bad_value))
 # todo: add element context
                 self.wr.Write(seg_data)
